@@ -41,7 +41,7 @@ def parseEntries (s : String) : Option Entries :=
 def parseTable (s : String) : Option Table :=
   if s = "nil" then some [] else (s.splitOn "<").mapM parseEntries
 
-def parseOp (s : String) : Option (List (Option TInstr)) :=
+def parseOp (s : String) : Option TProg :=
   match s.toList with
   | ['g'] => some progGetHead
   | ['G'] => some progGetHeadLocked
@@ -49,7 +49,7 @@ def parseOp (s : String) : Option (List (Option TInstr)) :=
   | 'L' :: r => do some (progLockedSave (← parseEntries (String.ofList r)))
   | _ => none
 
-def parseEvent (s : String) : Option (Event TInstr) :=
+def parseEvent (s : String) : Option (TEvent) :=
   match s.toList with
   | 'S' :: r =>
     match (String.ofList r).splitOn ":" with
@@ -76,7 +76,7 @@ def showGets (t : Table) (nkeys : Nat) : String :=
     | some v => toString v
     | none => "_")
 
-def describe (nkeys : Nat) (s t : TState) : Event TInstr → String
+def describe (nkeys : Nat) (s t : TState) : TEvent → String
   | .start _ _ => "S"
   | .crash _ => s!"X {showHeads t.heads}"
   | .step pid arg =>
@@ -91,7 +91,7 @@ def describe (nkeys : Nat) (s t : TState) : Event TInstr → String
     s!"{kind} {showHeads t.heads}{done}"
 
 def trace (working : Bool) (nkeys : Nat) (cl : Client Table TInstr TLoc) :
-    TState → Nat → List (Event TInstr) → List String → List String
+    TState → Nat → List (TEvent) → List String → List String
   | _, _, [], acc => acc.reverse
   | s, i, e :: es, acc =>
     match apply working cl s e with
